@@ -325,6 +325,49 @@ Proof.
   exists e, rq, rest. repeat split; try assumption. now symmetry.
 Qed.
 
+(* ------------------------------------------------ the rename keeps the tail *)
+
+Lemma split_sep_aux_app : forall a b acc, no_colon a ->
+  split_sep_aux (a ++ sep ++ b) acc = (rev acc ++ a) :: split_sep_aux b [].
+Proof.
+  induction a as [|x a IH]; intros b acc Hnc.
+  - cbn. now rewrite app_nil_r.
+  - inversion Hnc as [|x' a' Hx Ha]; subst.
+    assert (Hne : exists d t', a ++ sep ++ b = d :: t') by (destruct a; cbn; eauto).
+    destruct Hne as [d [t' Ht]].
+    cbn [app split_sep_aux]. rewrite Ht.
+    assert (Ex : (x =? colon) = false) by now apply N.eqb_neq.
+    rewrite Ex. cbn [andb]. rewrite <- Ht. rewrite IH by assumption.
+    cbn [rev]. now rewrite <- app_assoc.
+Qed.
+
+Lemma split_sep_app : forall a b, no_colon a -> split_sep (a ++ sep ++ b) = a :: split_sep b.
+Proof. intros a b H. unfold split_sep. now rewrite split_sep_aux_app. Qed.
+
+(* C13_rename_preserves_tail: the substituted path is the original one with
+   ONLY its first segment replaced: character for character everything from the
+   first "::" on is the original text, and (for a crate identifier and a head
+   without ':') the lists of segments agree from the second segment on. *)
+Theorem rename_preserves_tail : forall cs pol x p ps,
+  decide tp cs pol x = Use p ps ->
+  exists e rq,
+    x = ExtOk e (Some rq)
+    /\ p = sep ++ head_segment cs (x_crate e)
+              ++ skipn (length (dash_to_us (x_crate e))) (x_path e)
+    /\ (no_colon (dash_to_us (x_crate e)) -> no_colon (head_segment cs (x_crate e)) ->
+        exists tail,
+          split_sep (x_path e) = dash_to_us (x_crate e) :: tail
+          /\ split_sep (skipn 2 p) = head_segment cs (x_crate e) :: tail).
+Proof.
+  intros cs pol x p ps Hd. apply decide_use_iff in Hd.
+  destruct Hd as [e [rq [rest [Hx [Hsw [Hp [_ [_ [_ Hpp]]]]]]]]].
+  exists e, rq. split; [exact Hx|]. split.
+  - rewrite Hpp. rewrite Hp. now rewrite skipn_app_exact.
+  - intros Hi Hh. exists (split_sep rest). split.
+    + rewrite Hp. now apply split_sep_app.
+    + rewrite Hpp. cbn [sep app skipn]. now apply split_sep_app.
+Qed.
+
 (* a configured version decides by Cargo's documented semantics *)
 Theorem version_policy_is_cargo : forall cs pol e rq v rn,
   lookup cs (x_crate e) = Some (CS (CVVersion v) rn) ->
